@@ -20,6 +20,8 @@ BIGPROPS = {"C01", "C02", "C03", "C04", "C05", "C06", "C11", "C12", "C13", "C17"
 QUICK = [
     ("n3", "explore", ["exh", "n=3", "levels=f1a/dbnef1a"], TRACEP - {"C15", "C16", "C20"}, True, None),
     ("n3m", "explore", ["exh", "n=3", "levels=f1am/dbf1am"], {"C20"}, True, None),
+    # reconsider_all_jobs() (public debugging aid) as one more driver choice in every unfinished state
+    ("n3c", "explore", ["exh", "n=3", "levels=f1c/dbf1c"], {"C05", "C06", "C17"}, True, None),
     ("n3uses", "explore", ["exh", "n=3", "uses=none", "levels=f1/dbne"], {"C01", "C03", "C04", "C11", "C12"}, True, None),
     ("n3stamp", "explore", ["exh", "n=3", "cmp=both", "levels=f1a/dbf1a/-"], {"C15", "C04", "C09", "C12"}, True, None),
     ("n3stamp4", "explore", ["exh", "n=3", "cmp=both", "levels=-/dn/dn/dn", "steps=0"], {"C15", "C04", "C12"}, True, None),
@@ -52,6 +54,7 @@ QUICK = [
 THOROUGH = [
     ("n3", "explore", ["exh", "n=3", "levels=f2a/dbnerf1a/db"], TRACEP - {"C15", "C16", "C20"}, True, None),
     ("n3m", "explore", ["exh", "n=3", "levels=f1am/dbnef1am"], {"C20"}, True, None),
+    ("n3c", "explore", ["exh", "n=3", "levels=f1ac/dbnef1ac"], {"C05", "C06", "C17"}, True, None),
     ("n3uses", "explore", ["exh", "n=3", "uses=mix", "levels=f1/dbne/db"], {"C01", "C03", "C04", "C11", "C12"}, True, None),
     ("n3stamp", "explore", ["exh", "n=3", "cmp=both", "levels=f1a/dbnef1a/db"], {"C15", "C04", "C09", "C12"}, True, None),
     ("n3stamp4", "explore", ["exh", "n=3", "cmp=both", "levels=-/dbn/dbn/dbn", "steps=0"], {"C15", "C04", "C12"}, True, None),
@@ -92,7 +95,7 @@ def table(tier):
 # families whose every recorded transition is also compared with the model PPGEngine (strict
 # conformance, reported as DRIFT): all of them in the thorough tier, the exhaustive 3-job ones in
 # the quick tier
-QUICK_STRICT = {"n3", "n3m", "n3uses", "n3stamp", "n3flaky", "n3decl", "names3"}
+QUICK_STRICT = {"n3", "n3c", "n3m", "n3uses", "n3stamp", "n3flaky", "n3decl", "names3"}
 
 
 def for_property(prop, tier):
